@@ -2532,6 +2532,163 @@ pub fn s_cache(cx: &mut Ctx) {
     }
 }
 
+/// C18: large tables — thousands of distinct slots filled between two clears (counts at and around
+/// every power of two up to the table size), then every key asked again after the clear, a partial
+/// refill, and the keys of the first generation asked once more
+pub fn s_cache_large(cx: &mut Ctx) {
+    let plans: Vec<(u64, Vec<u64>)> = if cx.thorough {
+        vec![(10, vec![511, 512, 513, 1023, 1024, 1025, 3000]), (11, vec![1023, 1024, 1025, 2047, 2048, 2049, 5000]),
+             (12, vec![1024, 1025, 2049, 4095, 4096, 4097, 9000]), (14, vec![1025, 4097, 8193, 16383, 16385, 40000]),
+             (16, vec![1025, 4097, 32769, 65535, 65537, 150000])]
+    } else {
+        vec![(10, vec![1023, 1025]), (11, vec![1024, 1025, 2049]), (12, vec![1025, 4097]), (16, vec![1025, 40000])]
+    };
+    for (bits, counts) in plans {
+        for &n in &counts {
+            for shape in 0..2u64 {
+                cx.ex.begin_case();
+                cx_op!(cx, format!("c.new {}", bits));
+                let key = |i: u64| -> (u64, u64) {
+                    if shape == 0 { (i, 0) } else { (i % 97, i / 97 + (i % 3) * 1000) }
+                };
+                // an earlier generation, cleared
+                for i in 0..7 {
+                    let k = key(i * 13 + 5);
+                    cx_op!(cx, format!("c.insert {} {} {}", k.0, k.1, 900 + i));
+                }
+                cx.op("c.clear".into());
+                for i in 0..n {
+                    let k = key(i);
+                    cx_op!(cx, format!("c.insert {} {} {}", k.0, k.1, i % 1000));
+                }
+                // a sample of lookups before the clear
+                let stride = 1 + n / 50;
+                let mut i = 0;
+                while i < n {
+                    let k = key(i);
+                    cx_op!(cx, format!("c.get {} {}", k.0, k.1));
+                    i += stride;
+                }
+                cx.op("c.clear".into());
+                // the last keys inserted (and a sample of the others) must be gone
+                for i in n.saturating_sub(40)..n {
+                    let k = key(i);
+                    cx_op!(cx, format!("c.get {} {}", k.0, k.1));
+                }
+                let mut i = 0;
+                while i < n {
+                    let k = key(i);
+                    cx_op!(cx, format!("c.get {} {}", k.0, k.1));
+                    i += stride;
+                }
+                if bits <= 12 {
+                    cx.op("c.dump".into());
+                }
+                // partial refill, then the first generation once more
+                for i in 0..20 {
+                    let k = key(n + i);
+                    cx_op!(cx, format!("c.insert {} {} {}", k.0, k.1, i));
+                }
+                for i in (n.saturating_sub(30)..n).chain(n..n + 20) {
+                    let k = key(i);
+                    cx_op!(cx, format!("c.get {} {}", k.0, k.1));
+                }
+                cx.op("c.clear".into());
+                let k = key(n + 3);
+                cx_op!(cx, format!("c.get {} {}", k.0, k.1));
+                if bits <= 12 {
+                    cx.op("c.dump".into());
+                }
+            }
+        }
+    }
+}
+
+/// the machine-word layer: `Ref` packing, the link word of a table cell, `i32` literals at the limits of
+/// the type, the value accessors of `Table` that bypass hashing, and the pairing functions of `utils.rs`
+/// that the manager does not use itself
+pub fn s_bits(cx: &mut Ctx) {
+    let lim: Vec<u64> = vec![1, 2, 3, 7, 255, 256, 32767, 32768, 65535, 65536, 65537, (1 << 30) - 1, 1 << 30, (1 << 30) + 1,
+                             (1u64 << 31) - 2, (1u64 << 31) - 1];
+    let beyond: Vec<u64> = vec![(1u64 << 31) + 1, 3u64 << 30, (1u64 << 32) - 2, (1u64 << 32) - 1];
+    let rounds = if cx.thorough { 40 } else { 4 };
+    for round in 0..rounds {
+        cx.ex.begin_case();
+        let mut idx = lim.clone();
+        for _ in 0..12 {
+            idx.push(1 + cx.rng.below((1u64 << 31) - 1));
+        }
+        for &i in &idx {
+            for n in 0..2 {
+                cx_op!(cx, format!("ref.new {} {}", i, n));
+            }
+        }
+        for &v in &idx {
+            cx_op!(cx, format!("lit.cube {}", v));
+            cx_op!(cx, format!("lit.cube -{}", v));
+        }
+        let mut vars = idx.clone();
+        vars.extend(beyond.iter().copied());
+        for _ in 0..6 {
+            vars.push((1u64 << 31) + 1 + cx.rng.below((1u64 << 31) - 1));
+        }
+        for &v in &vars {
+            for n in 0..2 {
+                cx_op!(cx, format!("lit.onesat {} {}", v, n));
+            }
+        }
+        // pairing functions: all small pairs once, then larger ones that still fit in 64 bits
+        if round == 0 {
+            for a in 0..12u64 {
+                for b in 0..12u64 {
+                    cx_op!(cx, format!("pair.cantor {} {}", a, b));
+                    cx_op!(cx, format!("pair.hopcroft {} {}", a, b));
+                }
+            }
+        }
+        for _ in 0..40 {
+            let a = cx.rng.below(1u64 << 31);
+            let b = cx.rng.below(1u64 << 31);
+            cx_op!(cx, format!("pair.cantor {} {}", a, b));
+            cx_op!(cx, format!("pair.hopcroft {} {}", a + 1, b + 1));
+            let w = |r: &mut crate::gen::Rng| -> u64 {
+                match r.below(4) {
+                    0 => r.below(16),
+                    1 => u64::MAX - r.below(16),
+                    2 => (1u64 << 32) - 2 + r.below(4),
+                    _ => r.below(u64::MAX),
+                }
+            };
+            let (p, q, r, t) = (w(&mut cx.rng), w(&mut cx.rng), w(&mut cx.rng), w(&mut cx.rng));
+            cx_op!(cx, format!("pair.four {} {} {} {}", p, q, r, t));
+        }
+        // the link word and the value accessors of a table cell
+        let bits = 3 + cx.rng.below(3);
+        cx_op!(cx, format!("t.new {} {} {}", bits, cx.rng.below(3), cx.rng.below(4)));
+        let cap = 1u64 << bits;
+        for k in 0..(cap / 2) {
+            cx_op!(cx, format!("t.put {}", 10 + k * 3));
+        }
+        cx.op("t.dump".into());
+        for &n in &[0u64, 1, 5, (1 << 30) + 1, (1u64 << 31) - 1, 1u64 << 31, (1u64 << 32) - 1, 1u64 << 32] {
+            for &i in &[0u64, 1, 2, cap / 2, cap - 1] {
+                cx_op!(cx, format!("t.setnext {} {}", i, n));
+            }
+        }
+        cx.op("t.dump".into());
+        for how in 0..3 {
+            for &i in &[0u64, 1, 2, cap / 2 + 1, cap - 1] {
+                cx_op!(cx, format!("t.setvalue {} {} {}", i, 500 + how * 10 + i, how));
+            }
+        }
+        cx.op("t.dump".into());
+        if cx.samples.len() < 2 {
+            let start = *cx.ex.case_starts.last().unwrap();
+            cx.samples.push(cx.ex.lines[start..].iter().take(8).cloned().collect());
+        }
+    }
+}
+
 /// C18: one call repeated 2^8, 2^16, 2^32 times (and one more / one less) between clears — counters
 /// of those widths wrap there
 pub fn s_cacherep(cx: &mut Ctx) {
@@ -3528,7 +3685,11 @@ pub fn run_suite(name: &str, cx: &mut Ctx) -> bool {
         "huge" => s_huge(cx),
         "tnode" => s_tnode(cx),
         "gcwrap" => s_gcwrap(cx),
-        "cache" => s_cache(cx),
+        "bits" => s_bits(cx),
+        "cache" => {
+            s_cache(cx);
+            s_cache_large(cx)
+        }
         "cacherep" => s_cacherep(cx),
         "kcache" => s_kcache(cx),
         "raw" => s_raw(cx, cfg!(debug_assertions)),
